@@ -85,12 +85,22 @@ func (t tagged) Stream(md protoreflect.MethodDescriptor, ss grpc.ServerStream) e
 type Env struct {
 	Back    map[string]*be.Backend // b1 b2 (service A), b3 (service B), bc (service C)
 	Unknown *grpc.ClientConn       // a connection that is never registered
+	Second  *grpc.ClientConn       // "b3x": a second connection to back-end b3 (same target, same descriptors)
 	SvcOf   map[string]string      // backend -> service
 	SD      map[string]protoreflect.ServiceDescriptor
 	Files   *protoregistry.Files // for the local service
 }
 
-var svcOf = map[string]string{"b1": "A", "b2": "A", "b3": "B", "bc": "C", "local": "A"}
+var svcOf = map[string]string{"b1": "A", "b2": "A", "b3": "B", "b3x": "B", "bc": "C", "local": "A"}
+
+// tagOf is the tag the provider's replies carry: b3x is another connection
+// to the server behind b3.
+func tagOf(prov string) string {
+	if prov == "b3x" {
+		return "b3"
+	}
+	return prov
+}
 
 func NewEnv() (*Env, error) {
 	e := &Env{Back: map[string]*be.Backend{}, SvcOf: svcOf, SD: map[string]protoreflect.ServiceDescriptor{}}
@@ -121,12 +131,29 @@ func NewEnv() (*Env, error) {
 		e.Close()
 		return nil, err
 	}
+	if e.Second, err = e.Back["b3"].NewConn(); err != nil {
+		e.Close()
+		return nil, err
+	}
 	return e, nil
+}
+
+func (e *Env) conn(name string) *grpc.ClientConn {
+	switch name {
+	case "unknown":
+		return e.Unknown
+	case "b3x":
+		return e.Second
+	}
+	return e.Back[name].CC
 }
 
 func (e *Env) Close() {
 	if e.Unknown != nil {
 		e.Unknown.Close()
+	}
+	if e.Second != nil {
+		e.Second.Close()
 	}
 	for _, b := range e.Back {
 		b.Close()
